@@ -40,13 +40,15 @@ structure Ops (α : Type) where
   quant : List α → Option α
   /-- cast of a fill value to an integer column (pyarrow) -/
   trunc : α → α
+  /-- `statistics.mean` / `statistics.median` accept the values (numbers); on strings they raise TypeError -/
+  numeric : Bool
 
 def truncR (r : Rat) : Rat := ((Int.tdiv r.num r.den : Int) : Rat)
 
-def ratOps : Ops Rat := { le := rle, mean := meanR, median := medianR, quant := quantileHalfR, trunc := truncR }
+def ratOps : Ops Rat := { le := rle, mean := meanR, median := medianR, quant := quantileHalfR, trunc := truncR, numeric := true }
 /-- strings: mean / median are never requested on them by the harness (pandas and pyarrow raise) -/
 def strOps : Ops String :=
-  { le := fun a b => decide (a ≤ b), mean := fun _ => none, median := fun _ => none, quant := fun _ => none, trunc := id }
+  { le := fun a b => decide (a ≤ b), mean := fun _ => none, median := fun _ => none, quant := fun _ => none, trunc := id, numeric := false }
 
 variable {α : Type}
 
@@ -179,10 +181,15 @@ def pandasGrouped (o : Ops α) (m : Method) (const : Option α) (keys : List Nat
   | .ffill => perGroup keys c pdFfill
   | .bfill => perGroup keys c pdBfill
 
-/-- `PythonDictMissingValueFeatureGroup._perform_grouped_imputation` -/
-def dictGrouped (o : Ops α) (m : Method) (const : Option α) (keys : List Nat) (c : List (Option α)) : List (Option α) :=
-  if !hasNull c then c else
-  match m with
+/-- `PythonDictMissingValueFeatureGroup._perform_grouped_imputation`.  The code computes `statistics.mean` and
+`statistics.median` of all non-null values *before* looking at the method ("overall statistics for fallback"), so on a
+non-numeric column with at least one value every method except `constant` raises TypeError (modelled as is). -/
+def dictGrouped (o : Ops α) (m : Method) (const : Option α) (keys : List Nat) (c : List (Option α)) :
+    Except String (List (Option α)) :=
+  if !hasNull c then .ok c else
+  if m = .constant then .ok (fillWith const c) else
+  if !o.numeric && !(valid c).isEmpty then .error "TypeError: statistics.mean of non-numeric values" else
+  .ok <| match m with
   | .constant => fillWith const c
   | .mean => perGroup keys c (fun g => fillWith (if (valid g).isEmpty then o.mean (valid c) else o.mean (valid g)) g)
   | .median => perGroup keys c (fun g => fillWith (if (valid g).isEmpty then o.median (valid c) else o.median (valid g)) g)
